@@ -29,6 +29,9 @@ def field(t, name):
     raise KeyError(name)
 
 
+HYPS = dict(seen=0, lits_nodup=0, sub_lits_nonempty=0)
+
+
 def row_ids(dfa_sx):
     """state ids of the rows of a (dfa ...) in row order = the order in which Rust popped the states"""
     return [row[0] for row in field(dfa_sx, 'trans')[1:]]
@@ -61,6 +64,13 @@ def oracles(st, script, command):
         groups = shape_groups(script, command)
         first = script.split('\n', 1)[0]
         sig = first[2:] if first.startswith('# ') else first
+    # the decidable side conditions of the source-level corollaries (Props/Capstone.v), evaluated on Rust's oracles
+    pairs = lambda l: [(str(x[0]), str(x[1])) for x in l]
+    HYPS['seen'] += 1
+    if len(set(pairs(om))) == len(om) and all(len(set(pairs(e[1:]))) == len(e) - 1 for e in osub):
+        HYPS['lits_nodup'] += 1
+    if all(str(x[0]) != '' for e in osub for x in e[1:]):
+        HYPS['sub_lits_nonempty'] += 1
     return '(oracles (pops %s) (fuel %d) (mainlits %s) (sublits %s) (groups %s) (sig %s))' % (
         ' '.join('(%s)' % ' '.join(p) for p in pops), FUEL,
         ' '.join(sexp.dump(x) for x in om), ' '.join(sexp.dump(x) for x in osub),
@@ -86,10 +96,53 @@ def corpus(ctx, texts):
     import random
     sub = dict(ctx, rng=random.Random(ctx.get('seed', 0) + 7919))
     quick = ctx.get('tier') != 'thorough'
-    out = list(texts[: (300 if quick else len(texts))])
+    out = list(texts[: (200 if quick else len(texts))])
     out += [t for _, t in c03.grammars(dict(sub, tier='quick'))][:: (20 if quick else 1)]
     out += [t for k, t in c06.cases(dict(sub, tier='quick')) if not k.startswith('probe')]
     return list(dict.fromkeys(out))
+
+
+def _coq_tree_key():
+    import hashlib
+    import os
+    from .. import paths
+    h = hashlib.sha1()
+    for root in ('theories', 'gen'):
+        for dp, _, fs in sorted(os.walk(os.path.join(paths.COQ, root))):
+            for f in sorted(fs):
+                if f.endswith('.v'):
+                    st = os.stat(os.path.join(dp, f))
+                    h.update(('%s/%s %d %d\n' % (dp, f, st.st_mtime_ns, st.st_size)).encode())
+    st = os.stat(os.path.join(paths.COQ, '_CoqProject'))
+    h.update(('proj %d %d' % (st.st_mtime_ns, st.st_size)).encode())
+    return h.hexdigest()
+
+
+def capstone_obligations(res, prefix):
+    """proof obligations of Props/Capstone.v (source-level corollaries of compile_bash); `prefix` selects the
+    theorem names the calling check reports (e.g. 'C14_'): one-liner for the check of the property they serve.
+    Four checks call this; the verdict for one state of the Coq sources (paths, sizes, mtimes of every .v and of
+    _CoqProject) is computed once and kept in .cache/capstone-obligations.json."""
+    import json
+    import os
+    from .. import coqcheck, paths
+    cache = os.path.join(paths.CACHE, 'capstone-obligations.json')
+    key = _coq_tree_key()
+    extra = None
+    try:
+        c = json.load(open(cache))
+        if c.get('key') == key and c['result'].get('ok'):
+            extra = c['result']
+    except Exception:
+        extra = None
+    if extra is None:
+        extra = coqcheck.check_property('Capstone')
+        if _coq_tree_key() == key:
+            json.dump(dict(key=key, result=extra), open(cache, 'w'), default=str)
+    if not extra['ok']:
+        res.violations.append(report.Violation('proof obligations of Props/Capstone.v (source-level corollaries of compile_bash) no longer check',
+                                               dict(kind='proof-obligation', property='Capstone', errors=extra['errors'][:5]), found_input=False))
+    res.extra['theorems_Capstone'] = [t for t in extra['theorems'] if t.startswith(prefix)]
 
 
 def tie(ctx, res, texts, label='end_to_end_bash', binary_max=None):
@@ -98,7 +151,7 @@ def tie(ctx, res, texts, label='end_to_end_bash', binary_max=None):
     compared with what the real `complgen --bash` binary writes (one process per grammar: slow), the others with
     the script the same library code returns inside cg-dump."""
     if binary_max is None:
-        binary_max = 60 if ctx.get('tier') != 'thorough' else 3000
+        binary_max = 40 if ctx.get('tier') != 'thorough' else 3000
     t0 = time.time()
     texts = [t for t in texts if usable(t)]
     with build.Lock():
@@ -191,7 +244,106 @@ def tie(ctx, res, texts, label='end_to_end_bash', binary_max=None):
             res.violations.append(report.Violation('proof obligations of C04c (compile_bash: totality / embedding) no longer check',
                                                    dict(kind='proof-obligation', property='C04c', errors=extra['errors']), found_input=False))
         res.extra['theorems_C04c'] = extra['theorems']
+    res.extra['capstone_side_conditions_on_rust_oracles'] = dict(HYPS)
     res.extra[label] = dict(texts=len(texts), scripts_byte_identical=agree['script'], of_which_against_the_binary=agree['binary'], with_within_word_automata=with_words,
                             rejections_agree=agree['reject'], oracle_conflicts=agree['conflict'],
                             seconds=round(time.time() - t0, 1), harness_s=round(t_dump, 1), binary_s=round(t_bin, 1), model_s=round(t_model, 1))
     return agree['script']
+
+
+def tie_data(ctx, res, texts, label='end_to_end_data', binary_max=None):
+    """The same for fish, zsh and pwsh, as far as the emitter models go (Model/Compiler.v compile_data = Driver.compile ;
+    Tables.all_tables sh ; EmitData sections): on the SOURCE TEXT, with the oracles of the run for that shell, the data
+    blocks must occur byte for byte, in order, in the script (of the real binary for the first `binary_max` texts per
+    shell, of the same library code inside cg-dump for the rest) and every other line must be a line of the regenerated
+    skeleton templates (c04.data_tie); rejections must agree on stage and variant."""
+    from .c04 import data_tie
+    t0 = time.time()
+    shells = ['fish', 'zsh', 'pwsh']
+    if binary_max is None:
+        binary_max = 15 if ctx.get('tier') != 'thorough' else 800
+    texts = [t for t in texts if usable(t)]
+    with build.Lock():
+        exe = build.harness()
+        binary = build.complgen(False)
+    dumps = impl.dump(exe, texts, STAGES, shells)
+    jobs = [dict(text=t, shell=sh, to_file=False) for t in texts[:binary_max] for sh in shells]
+    runs = impl.run_binary_many(binary, jobs, timeout=20)
+    byrun = {}
+    for j, b in zip(jobs, runs):
+        byrun[(j['text'], j['shell'])] = b
+    reqs, keys = [], []
+    for t, d in zip(texts, dumps):
+        for sh in shells:
+            st = d[sh]
+            b = byrun.get((t, sh))
+            if b is not None and b['rc'] == 0 and b['stdout']:
+                script = b['stdout'].decode('latin-1')
+            elif b is None:
+                script = emitlib.script_of(st.get('SCRIPT'))
+            else:
+                script = None
+            command = 'cmd'
+            if st.get('CHECK', '').startswith('(ok '):
+                command = str(sexp.parse(st['CHECK'])[1])
+            try:
+                o = oracles(st, script, command)
+            except Exception:
+                o = '(oracles (pops) (fuel %d) (mainlits) (sublits) (groups) (sig ""))' % FUEL
+            reqs.append('compiledata %s %s %s' % (sh, o, sexp.quote(t.decode('latin-1'))))
+            keys.append((t, sh, st, script, command, b))
+    outs = model.run(reqs)
+    agree = dict(data=0, reject=0, conflict=0, binary=0, other_command=0)
+    for (t, sh, st, script, command, b), o in zip(keys, outs):
+        res.evaluations += 1
+        replay = dict(kind='tie-compile-data', grammar=t.decode('latin-1'), shell=sh, model=o[:1500],
+                      impl={k: v[:600] for k, v in st.items()})
+        if 'CRASH' in st or 'PANIC' in st or (b is not None and (b['timed_out'] or b['rc'] not in (0, 1))):
+            continue
+        try:
+            m = sexp.parse(o)
+        except Exception:
+            m = ['drivererror', o[:200]]
+        if m[0] in ('panic', 'outoffuel', 'drivererror'):
+            res.violations.append(report.Violation('compile_data answers %s (its totality is claimed by Props/C04c.v)' % o[:200],
+                                                   replay, found_input=False))
+            continue
+        if m[0] == 'oracle-conflict':
+            agree['conflict'] += 1
+            continue
+        err = [(STAGE_OF[s], sexp.parse(st[s])) for s in ('PARSE', 'CHECK', 'REGEX', 'RAW', 'AMB') if s in st and st[s].startswith('(err')]
+        if err:
+            stage, e = err[0]
+            variant = e[1][0]
+            if variant in ('AmbiguousDFA', 'ConflictingDescriptions'):
+                stage = 'amb'
+            ok = m[0] == 'err' and m[1] == stage and isinstance(m[2], list) and m[2][0] == variant and (b is None or b['rc'] == 1)
+            if ok and variant != 'NonterminalDefinitionsCycle' and stage in ('parse', 'check'):
+                ok = m[2] == e[1]
+            if ok:
+                agree['reject'] += 1
+                res.traces_validated += 1
+            else:
+                res.violations.append(report.Violation(
+                    'tie broken (compile_data %s): library rejects at %s with %s, model says %s' % (sh, stage, variant, o[:120]),
+                    replay, found_input=False))
+            continue
+        if script is None:
+            res.violations.append(report.Violation('tie broken (compile_data %s): the library accepts, no script' % sh, replay, found_input=False))
+            continue
+        if command != 'cmd':
+            agree['other_command'] += 1     # the skeleton patterns of c04.data_tie are instantiated for the command "cmd"
+            continue
+        why = data_tie(sh, script, o)
+        if why is None:
+            agree['data'] += 1
+            if b is not None:
+                agree['binary'] += 1
+            res.traces_validated += 1
+        else:
+            res.violations.append(report.Violation('tie broken (compile_data %s): %s' % (sh, why), dict(replay, why=why), found_input=False))
+    res.extra[label] = dict(texts=len(texts), shells=shells, data_sections_byte_identical=agree['data'],
+                            of_which_against_the_binary=agree['binary'], rejections_agree=agree['reject'],
+                            oracle_conflicts=agree['conflict'], skipped_other_command_name=agree['other_command'],
+                            seconds=round(time.time() - t0, 1))
+    return agree['data']
